@@ -422,6 +422,7 @@ package node
 //@ spec func procByAlias(n *node, a gen.Alias) *process = smVal(n.aliases, any(a)).(*process)
 //@ func (n *node) RouteSendAlias
 //@   props C02 C03
+//@   modifies pushed, woken, mwoken, routeCalls(), routed, anyof(process).messagesIn, anyof(meta).messagesIn
 //@   requires [tables] aliasesWF(n) && namesWF(n)
 //@   ensures [accepted_meta] result == nil && to.Node == n.name && n.creation > 0 && smHas(procByAlias(n, to).metas, any(to)) ==> pushed(smVal(procByAlias(n, to).metas, any(to)).(*meta).main) == old(pushed(smVal(procByAlias(n, to).metas, any(to)).(*meta).main)) + 1 && mwoken(smVal(procByAlias(n, to).metas, any(to)).(*meta)) == old(mwoken(smVal(procByAlias(n, to).metas, any(to)).(*meta))) + 1
 //@   ensures [accepted_process] result == nil && to.Node == n.name && n.creation > 0 && !smHas(procByAlias(n, to).metas, any(to)) ==> smHas(n.aliases, any(to)) && (pushed(prioQueue(procByAlias(n, to), options.Priority)) == old(pushed(prioQueue(procByAlias(n, to), options.Priority))) + 1 && woken(procByAlias(n, to)) == old(woken(procByAlias(n, to))) + 1 || procByAlias(n, to).fallback.Enable)
